@@ -245,6 +245,10 @@ Definition popNewStreamFrame (maxBytes maxDataLen : Z) (s : state) : state * opt
   | None =>
     let mdl := max_data_len (sid s) (writeOffset s) maxBytes in
     if mdl =? 0 then (s, None, negb (isNil (dataForWriting s)) || finishedWriting s)
+    else if Z.min (zlen (dataForWriting s)) (Z.min mdl maxDataLen) >? ssMaxPacketBufferSize then
+      (* f.Data[:n] beyond the capacity of a pooled frame: Go panics (slice bounds); the framer never
+         offers more than a packet *)
+      (set_panicked true s, None, false)
     else
       let (s1, data) := getDataForWriting (Z.min mdl maxDataLen) s in
       let more := negb (isNil (dataForWriting s1)) || finishedWriting s1 in
@@ -255,6 +259,20 @@ Definition popNewStreamFrame (maxBytes maxDataLen : Z) (s : state) : state * opt
 Definition emit (isNew : bool) (f : frame) (s : state) : state :=
   let s1 := set_emitted (emitted s ++ [f]) (set_outstanding (outstanding s ++ [f]) (set_numOut (numOut s + 1) s)) in
   if isNew then set_emittedNew (emittedNew s1 ++ [f]) s1 else s1.
+
+(* the part of popNewOrRetransmittedStreamFrame after popNewStreamFrame returned a frame *)
+Definition finish_new (maxDataLen r : Z) (more : bool) (s1 : state) (f0 : frame) : state * out :=
+  let dl := zlen (f_data f0) in
+  let s2 := if 0 <? dl then addBytesSent dl (set_writeOffset (writeOffset s1 + dl) s1) else s1 in
+  let more2 := if isSome (resetErr s2) && (writeOffset s2 >=? r) then false else more in
+  let '(s3, blocked) :=
+    if dl =? maxDataLen then
+      let (s3, b) := isNewlyBlocked s2 in (s3, if b then Some (writeOffset s3) else None)
+    else (s2, None) in
+  let fin := finishedWriting s3 && isNil (dataForWriting s3) && negb (isSome (nextFrame s3)) && negb (finSent s3) in
+  let s4 := if fin then set_finSent true s3 else s3 in
+  let f := mkF (f_off f0) (f_data f0) fin in
+  (emit true f s4, mkOut (Some f) blocked more2 None 0 None 0 0 0).
 
 Definition do_pop (maxBytes : Z) (s : state) : state * out :=
   if shutdown s then (s, out0)
@@ -282,18 +300,7 @@ Definition do_pop (maxBytes : Z) (s : state) : state * out :=
         let maxDataLen := if isSome (resetErr s) && (0 <? r) then Z.min win (r - writeOffset s) else win in
         match popNewStreamFrame maxBytes maxDataLen s with
         | (s1, None, more) => (s1, mkOut None None more None 0 None 0 0 0)
-        | (s1, Some f0, more) =>
-          let dl := zlen (f_data f0) in
-          let s2 := if 0 <? dl then addBytesSent dl (set_writeOffset (writeOffset s1 + dl) s1) else s1 in
-          let more2 := if isSome (resetErr s2) && (writeOffset s2 >=? r) then false else more in
-          let '(s3, blocked) :=
-            if dl =? maxDataLen then
-              let (s3, b) := isNewlyBlocked s2 in (s3, if b then Some (writeOffset s3) else None)
-            else (s2, None) in
-          let fin := finishedWriting s3 && isNil (dataForWriting s3) && negb (isSome (nextFrame s3)) && negb (finSent s3) in
-          let s4 := if fin then set_finSent true s3 else s3 in
-          let f := mkF (f_off f0) (f_data f0) fin in
-          (emit true f s4, mkOut (Some f) blocked more2 None 0 None 0 0 0)
+        | (s1, Some f0, more) => finish_new maxDataLen r more s1 f0
         end
   end.
 
